@@ -15,11 +15,14 @@ Inductive case :=
 | CEp (id : nat) (c : cfg) (t m : dt) (n : nat) (obs : list (string * option dt))
 | CEpV (id : nat) (mc : bool) (c : cfg) (t m : dt) (n : nat) (obs : list (string * option dt))
 | CExt (id : nat) (level : nat) (p : prog)
+| CExtX (id : nat) (level : nat) (p : prog) (want : list nat)
 | CTr (id : nat) (t m : dt) (p : prog) (obs : list (option dt)).
 (* CTr: self-test of the source translator: a random straight-line function was executed by Python / NumPy / TensorLy with data
    dtype t and mask dtype m; obs = the dtypes of its returned arrays, in order; p = its translation.  Exact comparison. *)
 (* CExt: a dtype program extracted from the Python source of one function on this run; level 2: must pass the tolerant
    program check for every mask dtype, level 1: for a mask of the data's dtype *)
+(* CExtX: the outputs at the positions `want` of an extracted program must be certified to have EXACTLY the data's dtype ('complex
+   stays complex'), level 2: for every mask dtype, level 1: for a mask of the data's dtype *)
 (* CEpV: the same against an explicitly chosen code variant (used to validate a candidate repair on a patched worktree) *)
 
 Definition slot_match (model_slot obs_slot : string) : bool := String.eqb model_slot "*" || String.eqb model_slot obs_slot.
@@ -40,10 +43,11 @@ Definition agree (c : case) : bool :=
   | CEp _ c t m n obs => agree_prog (skeleton c) t m n obs
   | CEpV _ mc c t m n obs => agree_prog (skeleton_v mc c) t m n obs
   | CExt _ level p => match level with 2 => ext_ok_any p | _ => ext_ok_same p end
+  | CExtX _ level p want => match level with 2 => ext_exact_any p want | _ => ext_exact_same p want end
   | CTr _ t m p obs =>
       let model := map snd (out_dtypes (mkenv t m) p 0) in
       Nat.eqb (List.length model) (List.length obs) &&
       forallb (fun xo => match snd xo with Some d => dt_eqb (fst xo) d | None => false end) (combine model obs)
   end.
-Definition ident (c : case) : nat := match c with CTab i _ _ _ | CDiv i _ _ _ | CAbs i _ _ | CEp i _ _ _ _ _ | CEpV i _ _ _ _ _ _ | CExt i _ _ | CTr i _ _ _ _ => i end.
+Definition ident (c : case) : nat := match c with CTab i _ _ _ | CDiv i _ _ _ | CAbs i _ _ | CEp i _ _ _ _ _ | CEpV i _ _ _ _ _ _ | CExt i _ _ | CExtX i _ _ _ | CTr i _ _ _ _ => i end.
 Definition failing := failing_ids agree ident.
